@@ -41,7 +41,7 @@ CHECKS = {
         level_text="seeded random op lists over three databases (live, dead, forged and reused handles) compared after every op with a slot/generation/refcount model, "
                    "including 'a refused op changed nothing' checked on every other live object",
         level_note="trusted: the model; random() is interposed so check words never repeat within a case (the 2^-31 collision inherent in the handle design is out of scope)",
-        stages=[rnd("ops", "c20", 1500000, 30000000, essential=["slot_reused", "stale_after_reuse", "destroy_with_refs", "bogus_handle", "iterate", "over_put_free", "second_destroy"]),
+        stages=[rnd("ops", "c20", 1500000, 30000000, essential=["slot_reused", "stale_after_reuse", "destroy_with_refs", "bogus_handle", "iterate", "over_put_free", "second_destroy", "create_without_memory"]),
                 fz("c20", 240)],
         assumptions=["single-threaded use", "no-check handles (qb_hdb_nocheck_convert) are not generated: the statement does not cover them"],
     ),
